@@ -469,3 +469,117 @@ Section step.
       discriminate Hs.
   Qed.
 End step.
+
+(* ---------- entries that are not placeholders never change any more ---------- *)
+Definition solid (i : ninfo) : Prop := n_ty i ≠ Buf ∨ n_fi i ≠ ∅.
+Definition ext (t t' : circuit) : Prop := ∀ k i, t !! k = Some i → solid i → t' !! k = Some i.
+Lemma node_is_ext t t' k g fi : ext t t' → node_is t k g fi → g ≠ Buf ∨ fi ≠ ∅ → node_is t' k g fi.
+Proof.
+  intros He [H1 H2] Hs. unfold node_is, ty, fanin in *. destruct (t !! k) as [i|] eqn:E; [|done]. simpl in *.
+  injection H1 as <-. subst fi. by rewrite (He k i E Hs).
+Qed.
+Lemma node_self t k g : ty t k = Some g → node_is t k g (fanin t k). Proof. done. Qed.
+Lemma lit0_ext t t' m h p : ext t t' → lit0 t m h p → lit0 t' m h p.
+Proof. intros He H. eapply node_is_ext; [done|exact H|by left]. Qed.
+Lemma lit1_ext t t' m h p : ext t t' → lit1 t m h p → lit1 t' m h p.
+Proof.
+  intros He (Ht & q & Hq & Hf & Hn).
+  destruct (node_is_ext t t' h And _ He (node_self _ _ _ Ht)) as [Ht' Hf']; [by left|].
+  split; [done|]. exists q. rewrite Hf'. split; [done|]. split; [done|]. eapply node_is_ext; [done|done|by left].
+Qed.
+Lemma ctl_gadget_ext t t' m (lit lit' : string → string → Prop) n fi :
+  (∀ h p, lit h p → lit' h p) → ext t t' → ctl_gadget t m lit n fi → ctl_gadget t' m lit' n fi.
+Proof.
+  intros Hl He (Hty & x & Hx & z & Hz & Hfi & Hxn & Hzt & Hall & Hex).
+  destruct (node_is_ext t t' (m n) And _ He (node_self _ _ _ Hty)) as [Hty' Hfm]; [by left|].
+  destruct (node_is_ext t t' z Nor _ He (node_self _ _ _ Hzt)) as [Hzt' Hfz]; [by left|].
+  split; [done|]. rewrite Hfm. exists x. split; [done|]. exists z. split; [done|].
+  split; [done|]. split; [eapply node_is_ext; [done|done|by left]|]. split; [done|]. rewrite Hfz. split.
+  - intros h Hh. destruct (Hall h Hh) as (p & Hp & Hlit). exists p. split; [done|]. by apply Hl.
+  - intros p Hp. destruct (Hex p Hp) as (h & Hh & Hlit). exists h. split; [done|]. by apply Hl.
+Qed.
+Lemma comp_ok_ext t t' m n i : ext t t' → comp_ok t m n i → comp_ok t' m n i.
+Proof.
+  intros He. unfold comp_ok. destruct (n_ty i); try done.
+  - intros (p & Hp & Hfi & Hn). exists p. split; [done|]. split; [done|]. eapply node_is_ext; [done|done|right; set_solver].
+  - apply ctl_gadget_ext; [|done]. intros h p. by apply lit0_ext.
+  - apply ctl_gadget_ext; [|done]. intros h p. by apply lit1_ext.
+  - intros [Hne Hn]. split; [done|]. eapply node_is_ext; [done|done|by left].
+  - intros (p & Hp & Hfi & Hn). exists p. split; [done|]. split; [done|]. eapply node_is_ext; [done|done|right; set_solver].
+  - apply ctl_gadget_ext; [|done]. intros h p. by apply lit0_ext.
+  - apply ctl_gadget_ext; [|done]. intros h p. by apply lit1_ext.
+  - intros [Hne Hn]. split; [done|]. eapply node_is_ext; [done|done|by left].
+  - intros Hn. eapply node_is_ext; [done|done|by left].
+  - intros Hn. eapply node_is_ext; [done|done|by left].
+  - intros Hn. eapply node_is_ext; [done|done|by left].
+Qed.
+
+(* ---------- the invariant of the node loop ---------- *)
+Section run.
+  Context (c : circuit) (fo : string → list string).
+  Notation μ := (mu_name c).
+  Hypothesis Hnd : ∀ k, k ∈ dom c → has_dot k = false.
+  Hypothesis Hnodes : ∀ n i, c !! n = Some i →
+    list_to_set (fo n) = n_fi i ∧ (∀ p, p ∈ n_fi i → p ∈ dom c) ∧ arity_ok i.
+
+  Definition Inv (t : circuit) (dn : list string) : Prop :=
+    (∀ k j, c !! k = Some j → t !! k = Some j) ∧
+    (∀ n i, n ∈ dn → c !! n = Some i → comp_ok t μ n i) ∧
+    (∀ n, n ∈ dom c → n ∉ dn → t !! μ n = None ∨ t !! μ n = Some ph) ∧
+    (∀ k j, t !! k = Some j → k ∈ dom c ∨ (∃ n, n ∈ dom c ∧ k = μ n ∧ (n ∈ dn ∨ j = ph)) ∨ helper_ok c k j).
+
+  Lemma mu_fresh n : μ n ∉ dom c. Proof. apply uid_fresh. Qed.
+  Lemma mu_inj n n' : μ n = μ n' → n = n'. Proof. apply comp_name_inj. Qed.
+
+  Lemma inv_step t dn n t' : Inv t dn → n ∈ dom c → n ∉ dn → step doc_ttab c fo t n = Ok t' → Inv t' (n :: dn).
+  Proof.
+    intros (HA & HB & HC & HD) Hn Hnd' Hs. apply elem_of_dom in Hn as [i Hi].
+    destruct (Hnodes n i Hi) as (Hfo & Hcl & Har).
+    assert (Hm : t !! μ n = None ∨ t !! μ n = Some ph) by (apply HC; [apply elem_of_dom; eauto|done]).
+    destruct (step_spec c fo Hnd t n i t' Hi Hm Hfo Hcl Har Hs) as (HF & HG & HN).
+    assert (Hext : ext t t').
+    { intros k j Hk Hsol. destruct (decide (k = μ n)) as [->|Hne].
+      - destruct Hm as [Hm|Hm]; rewrite Hm in Hk; [done|]. injection Hk as <-. destruct Hsol as [?|?]; done.
+      - rewrite HF; [done|apply elem_of_dom; eauto|done]. }
+    split; [|split; [|split]].
+    - intros k j Hk. rewrite HF; [by apply HA|apply elem_of_dom; eauto|].
+      intros ->. apply (mu_fresh n). apply elem_of_dom. eauto.
+    - intros n' i' [->|Hin]%elem_of_cons Hi'.
+      + rewrite Hi in Hi'. by injection Hi' as <-.
+      + eapply comp_ok_ext; eauto.
+    - intros n' Hn' Hnot. apply not_elem_of_cons in Hnot as [Hne Hnot].
+      assert (μ n' ≠ μ n) by (intros ?%mu_inj; done).
+      destruct (HC n' Hn' Hnot) as [Hold|Hold].
+      + destruct (t' !! μ n') as [j|] eqn:E; [|by left]. right.
+        destruct (HN _ _ E) as [[-> _]|(Hname & _)]; [by apply not_elem_of_dom|done|done|]. by destruct (Hname n').
+      + right. rewrite HF; [done|apply elem_of_dom; eauto|done].
+    - intros k j Hk. destruct (decide (k = μ n)) as [->|Hne].
+      + right. left. exists n. split; [apply elem_of_dom; eauto|]. split; [done|]. left. by left.
+      + destruct (decide (k ∈ dom t)) as [Hd|Hd].
+        * rewrite HF in Hk by done. destruct (HD k j Hk) as [?|[(n' & ? & ? & [?|?])|?]]; auto.
+          -- right. left. exists n'. split; [done|]. split; [done|]. left. by right.
+          -- right. left. exists n'. auto.
+        * destruct (HN k j Hk Hd Hne) as [[-> (p & Hp & ->)]|?]; [|auto]. right. left. exists p. auto.
+  Qed.
+
+  Lemma inv_run todo : ∀ t dn t', Inv t dn → NoDup todo → (∀ n, n ∈ todo → n ∈ dom c ∧ n ∉ dn) →
+    run doc_ttab c fo t todo = Ok t' → Inv t' (rev todo ++ dn).
+  Proof.
+    induction todo as [|n todo IH]; intros t dn t' HI Hnd' Hin Hr; simpl in Hr.
+    - by injection Hr as <-.
+    - destruct (step doc_ttab c fo t n) as [t1| | |] eqn:Es; simpl in Hr; try done.
+      apply NoDup_cons in Hnd' as [Hn Hnd'].
+      destruct (Hin n ltac:(by left)) as [Hnc Hndn].
+      pose proof (inv_step t dn n t1 HI Hnc Hndn Es) as HI1.
+      simpl. rewrite <- app_assoc. simpl. apply (IH t1 (n :: dn) t' HI1 Hnd'); [|done].
+      intros n' Hn'. destruct (Hin n' ltac:(by right)) as [? ?]. split; [done|].
+      intros [->|?]%elem_of_cons; done.
+  Qed.
+
+  Lemma inv_init : Inv c [].
+  Proof.
+    split; [done|]. split; [by intros n i ?%elem_of_nil|]. split.
+    - intros n _ _. left. apply not_elem_of_dom. apply mu_fresh.
+    - intros k j Hk. left. apply elem_of_dom. eauto.
+  Qed.
+End run.
